@@ -1,21 +1,25 @@
 """C03 -- kernel check, see checks/kcommon.py, vk/kengine.py, vk/kops.py (operation alphabet + numpy models)."""
 import os
 
-from checks import kcommon
+from checks import c03_mps, kcommon
 
 FOCUS = 'C03'
 UNIT_TIMEOUT = 1800.0
 
 
 def units(tier, seed, label):
-    return kcommon.plan(tier, FOCUS, label)
+    return c03_mps.units(tier) + kcommon.plan(tier, FOCUS, label)
 
 
 def run_unit(unit):
+    if unit[0] == 'mps':
+        return c03_mps.run_unit(unit)
     return kcommon.run(unit, FOCUS, os.environ.get('VERIF_TIER', 'quick'))
 
 
 def replay(case):
+    if 'mps_case' in case:
+        return c03_mps.replay(case)
     return kcommon.replay(case)
 
 
